@@ -83,7 +83,8 @@ class _Capture(logging.Handler):
         while tb is not None:
             fn = tb.tb_frame.f_code.co_filename
             if fn.startswith(_HERE) and tb.tb_frame.f_code.co_name in (
-                    'pop', '__delitem__'):
+                    'pop', '__delitem__') and \
+                    not os.environ.get('VERIF_CAPTURE_TRACKDICT'):
                 # TrackDict (Watcher.processes with attribution): a KeyError
                 # from it is the KeyError of circus' own dict operation
                 tb = tb.tb_next
